@@ -405,8 +405,20 @@ def args2list(max_shape, shapes, *args):
     return map(args2vals, zip(*it))
 
 
+_re_number = re.compile(
+    r'^\s*[+-]?(?:[0-9]+\.?[0-9]*|\.[0-9]+)(?:[eE][+-]?[0-9]+)?\s*$'
+)
+
+
+def _float(value):
+    # `float` accepts also python-only spellings (e.g., '1_0', 'inf', 'nan').
+    if isinstance(value, str) and not _re_number.match(value):
+        raise ValueError
+    return float(value)
+
+
 def wrap_ufunc(
-        func, input_parser=lambda *a: map(float, a), check_error=get_error,
+        func, input_parser=lambda *a: map(_float, a), check_error=get_error,
         args_parser=lambda *a: map(replace_empty, a), otype=Array,
         ranges=False, return_func=lambda res, *args: res, check_nan=True, **kw):
     """Helps call a numpy universal function (ufunc)."""
